@@ -59,7 +59,7 @@ def check(cx):
     rule_auth_implies_registered(cx, r3)
 
     # ---------------------------------------------------------------- R2.4
-    r4 = cx.rule('R2.4', 'user mutations keyed by own nick', floor=13, kind='provenance')
+    r4 = cx.rule('R2.4', 'user mutations keyed by own nick', floor=10, kind='provenance')
     handlers = [d for d, b in prog.bodies.items() if b['kind'] == 'AssocFn' and 'impl state::MainState' in d and '{closure' not in d
                 and d.split('::')[-1].startswith('process_')] + [fa]
     for h in sorted(set(handlers)):
